@@ -131,6 +131,9 @@ pub fn run(tier: &str) -> Part {
             let sql = render(shape, sp, bare);
             // position 1/2/3 in a multi-statement message, and as Parse
             let mut variants: Vec<(String, &str)> = vec![(sql.clone(), "single"), (format!("{}; {}", innocent[0], sql), "second"), (format!("{}; {}", sql, innocent[1]), "first-of-two")];
+            // statements of any size
+            variants.push((format!("{} /* {} */", sql, "x".repeat(300)), "single-pad300"));
+            variants.push((format!("{}{}", " ".repeat(9000), sql), "single-pad9000"));
             if thorough {
                 variants.push((format!("{}; {}; {}", innocent[0], innocent[2], sql), "third"));
                 variants.push((format!("{}; {}; {}", innocent[1], sql, innocent[0]), "middle"));
@@ -266,7 +269,7 @@ pub fn run(tier: &str) -> Part {
     part.extra.insert("parser_rejected_dont_care".into(), json!(rejected));
     part.extra.insert("dont_care".into(), json!(dont_care));
     part.rule = format!(
-        "{} statement shapes x {} identifier spellings (case, quoting, schema/catalog qualification, look-alikes) x positions (single, first, second{}) x Query/Parse, under plugins enabled / disabled / absent; reference = PostgreSQL identifier folding on the last path component; intercept rule in 4 spellings and 5 near misses with byte-exact expected rows",
+        "{} statement shapes x {} identifier spellings (case, quoting, schema/catalog qualification, look-alikes) x positions (single, single padded to 300 B / 9 KB, first, second{}) x Query/Parse, under plugins enabled / disabled / absent; reference = PostgreSQL identifier folding on the last path component; intercept rule in 4 spellings and 5 near misses with byte-exact expected rows",
         SHAPES.len(),
         SPELLINGS.len(),
         if thorough { ", middle, third" } else { "" }
